@@ -21,27 +21,43 @@ def aero_surface(name, mesh, symmetry, **kw):
     return s
 
 
-def aero_direct(surfaces, flow, compressible=False, height=None, t_over_c=None, setup=True):
-    """AeroPoint fed directly with meshes (no Geometry group).  flow: dict alpha,beta,v,rho,Mach,re[,omega,cg]"""
+# the user may declare his independent variables in any compatible unit; OpenMDAO converts at the connection
+BASE_UNITS = dict(v="m/s", alpha="deg", beta="deg", re="1/m", rho="kg/m**3", cg="m", height_agl="m", omega="rad/s", mesh="m")
+
+
+def _in_units(val, base, unit):
+    """value given in the harness's base unit expressed in `unit`, with OpenMDAO's own conversion table (its slug/lbf
+    entries are self-consistent only to 3.6e-9, so hand-written factors would not round-trip)"""
+    from openmdao.utils.units import convert_units
+
+    val = np.asarray(val, float)
+    return val if unit == base else convert_units(val, base, unit)
+
+
+def aero_direct(surfaces, flow, compressible=False, height=None, t_over_c=None, setup=True, units=None):
+    """AeroPoint fed directly with meshes (no Geometry group).  flow: dict alpha,beta,v,rho,Mach,re[,omega,cg]
+    units: optional {variable: unit} - the independent variable is then DECLARED in that unit (same physical value)"""
     from openaerostruct.aerodynamics.aero_groups import AeroPoint
 
+    u = dict(BASE_UNITS)
+    u.update(units or {})
     prob = om.Problem(reports=False)
     ivc = om.IndepVarComp()
-    ivc.add_output("v", val=flow.get("v", 100.0), units="m/s")
-    ivc.add_output("alpha", val=flow.get("alpha", 5.0), units="deg")
-    ivc.add_output("beta", val=flow.get("beta", 0.0), units="deg")
+    ivc.add_output("v", val=_in_units(flow.get("v", 100.0), BASE_UNITS["v"], u["v"]), units=u["v"])
+    ivc.add_output("alpha", val=_in_units(flow.get("alpha", 5.0), BASE_UNITS["alpha"], u["alpha"]), units=u["alpha"])
+    ivc.add_output("beta", val=_in_units(flow.get("beta", 0.0), BASE_UNITS["beta"], u["beta"]), units=u["beta"])
     ivc.add_output("Mach_number", val=flow.get("Mach", 0.3))
-    ivc.add_output("re", val=flow.get("re", 1e6), units="1/m")
-    ivc.add_output("rho", val=flow.get("rho", 1.0), units="kg/m**3")
-    ivc.add_output("cg", val=np.array(flow.get("cg", [0.0, 0.0, 0.0]), float), units="m")
+    ivc.add_output("re", val=_in_units(flow.get("re", 1e6), BASE_UNITS["re"], u["re"]), units=u["re"])
+    ivc.add_output("rho", val=_in_units(flow.get("rho", 1.0), BASE_UNITS["rho"], u["rho"]), units=u["rho"])
+    ivc.add_output("cg", val=_in_units(np.array(flow.get("cg", [0.0, 0.0, 0.0]), float), BASE_UNITS["cg"], u["cg"]), units=u["cg"])
     rotational = "omega" in flow
     if height is not None:
-        ivc.add_output("height_agl", val=height, units="m")
+        ivc.add_output("height_agl", val=_in_units(height, BASE_UNITS["height_agl"], u["height_agl"]), units=u["height_agl"])
     if rotational:
-        ivc.add_output("omega", val=np.array(flow["omega"], float), units="rad/s")
+        ivc.add_output("omega", val=_in_units(np.array(flow["omega"], float), BASE_UNITS["omega"], u["omega"]), units=u["omega"])
     for i, s in enumerate(surfaces):
         m = s["mesh"]
-        ivc.add_output(s["name"] + "_mesh", val=m, units="m")
+        ivc.add_output(s["name"] + "_mesh", val=_in_units(m, BASE_UNITS["mesh"], u["mesh"]), units=u["mesh"])
         toc = 0.12 if t_over_c is None else t_over_c[i]
         ivc.add_output(s["name"] + "_toc", val=toc * np.ones(m.shape[1] - 1))
     prob.model.add_subsystem("prob_vars", ivc, promotes=["*"])
